@@ -15,7 +15,7 @@ import (
 	"verif/vs/run"
 )
 
-// Actors: s = Subscribe (never cancelled), c = Subscribe + a thread cancelling it, p = one Publish,
+// Actors: e = Subscribe without topics, s = Subscribe (never cancelled), c = Subscribe + a thread cancelling it, p = one Publish,
 // q = two Publishes from one thread, d = Shutdown(background), x = Shutdown(ctx) + a thread cancelling ctx.
 type Params struct {
 	Actors  string
@@ -81,7 +81,7 @@ func body(p Params) func() {
 		nsub, npub := 0, 0
 		for _, a := range p.Actors {
 			switch a {
-			case 's', 'c':
+			case 's', 'c', 'e':
 				nsub++
 				i := len(w.SubErrs)
 				w.SubErrs = append(w.SubErrs, nil)
@@ -93,7 +93,11 @@ func body(p Params) func() {
 				w.Writers = append(w.Writers, wr)
 				var client sse.MessageWriter = wr
 				hs = append(hs, vrt.GoNamed(name, func() {
-					err := j.Subscribe(ctx, sse.Subscription{Client: client, Topics: []string{"a"}})
+					topics := []string{"a"}
+					if a == 'e' {
+						topics = nil // a subscription without topics: it matches nothing, but it must still end with Joe
+					}
+					err := j.Subscribe(ctx, sse.Subscription{Client: client, Topics: topics})
 					ret.Poke(1)
 					w.SubErrs[i], w.SubRet[i] = err, true
 				}))
@@ -287,6 +291,14 @@ func Scenarios(tier string) []run.Scenario {
 				out = append(out, run.Scenario{Name: p.Name(), Body: body(p), Check: check, Sig: run.NormSig, Summary: summary,
 					Opts: vrt.Options{PreemptBound: -1, FaultBound: -1, OrderBound: -1, Prune: true, Race: true}})
 			}
+		}
+	}
+	// subscriptions without topics
+	for _, a := range []string{"ed", "epd", "esd", "eed", "ecd", "edd"} {
+		for _, pre := range []bool{false, true} {
+			p := Params{Actors: a, PreInit: pre, Preempt: -1}
+			out = append(out, run.Scenario{Name: p.Name(), Body: body(p), Check: check, Sig: run.NormSig, Summary: summary,
+				Opts: vrt.Options{PreemptBound: -1, FaultBound: -1, OrderBound: -1, Prune: true, Race: true}})
 		}
 	}
 	// a Shutdown racing publishers and slow subscribers with the delivery oracle of C03: a Publish that returned nil
